@@ -201,6 +201,15 @@ Proof.
   - destruct Hin as [Hin | Hin]; [inversion Hin; subst; rewrite N.eqb_refl in E; discriminate | apply IH; exact Hin].
 Qed.
 
+Lemma aget_out_none : forall (f : href -> hetag) (work : list (href * option etag)) h,
+  ~ In h (map fst work) -> aget h (map (fun w => (fst w, f (fst w))) work) = None.
+Proof.
+  intros f work h; induction work as [| [h0 e0] r IH]; intro Hn; [reflexivity |].
+  cbn. destruct (N.eqb h h0) eqn:E.
+  - apply N.eqb_eq in E; subst h0. exfalso; apply Hn; left; reflexivity.
+  - apply IH. intro Hc; apply Hn; right; exact Hc.
+Qed.
+
 Theorem compute_state_spec : forall now items (hi : hist) seed hi' seed' state,
   compute_state now items (hi, seed) = ((hi', seed'), state) ->
   asorted items -> asorted hi -> hist_wf hi ->
@@ -243,16 +252,14 @@ Proof.
       destruct (Hall1 _ _ Hin) as [q [mt Hg1]].
       rewrite Hout1, (aget_out _ _ _ _ Hin). unfold hetag_of; rewrite Hg1; reflexivity.
     + assert (Hno : aget h out1 = None).
-      { apply aget_none_notin. unfold akeys. rewrite Hm1. unfold work1; rewrite map_fst_work1.
+      { rewrite Hout1. apply aget_out_none. unfold work1; rewrite map_fst_work1.
         apply aget_none_notin; exact Eg. }
-      rewrite Hno. destruct (aget h out2) as [he |] eqn:Eo; [| reflexivity].
-      assert (Hin : In (h, @None etag) work2).
-      { assert (Hk : In h (akeys out2)) by (apply amem_true_iff; unfold amem; rewrite Eo; reflexivity).
-        unfold akeys in Hk. rewrite Hm2 in Hk. unfold work2 in Hk; rewrite map_fst_work2 in Hk.
-        unfold work2; apply in_map_iff; exists h; split; [reflexivity | exact Hk]. }
-      destruct (Hall2 _ _ Hin) as [q [mt Hg2]].
-      rewrite Hout2, (aget_out _ _ _ _ Hin) in Eo. unfold hetag_of in Eo; rewrite Hg2 in Eo.
-      inversion Eo; reflexivity.
+      rewrite Hno. destruct (in_dec N.eq_dec h dels) as [Hd | Hd].
+      * assert (Hin : In (h, @None etag) work2).
+        { unfold work2; apply in_map_iff; exists h; split; [reflexivity | exact Hd]. }
+        destruct (Hall2 _ _ Hin) as [q [mt Hg2]].
+        rewrite Hout2, (aget_out _ _ _ _ Hin). unfold hetag_of; rewrite Hg2; reflexivity.
+      * rewrite Hout2, aget_out_none; [reflexivity |]. unfold work2; rewrite map_fst_work2; exact Hd.
   - (* recomputing on the updated history changes nothing and gives the same snapshot *)
     intros now2 seed2. unfold compute_state. fold work1.
     assert (Hitem : forall h0 e0, In (h0, e0) items -> aget h0 hi' = aget h0 hi1).
